@@ -89,6 +89,7 @@ static Verdict run(const Case &c) {
 int main(int argc, char **argv) {
     Args a = parse_args(argc, argv);
     if (!a.replay.empty()) return replay_case(a, run);
+    zygote_start(run);   // before any code under test runs in this process
     if (!a.digest_of.empty()) {
         std::string t; Case c;
         if (!read_file(a.digest_of, t) || !Case::from_text(t, c)) return 2;
